@@ -339,7 +339,8 @@ also with `lock=True` - the call runs under `cache.lock('lock:' + key)` - and wi
 accepts everything (`condition=None`: any result but `None`; the bodies return tokens); `time_condition=limit` accepts iff
 the body took longer than `limit`; `upper=True` (`_wrap_with_condition`: the decorator is built again on every call, with the
 same `**decor_kwargs` - tags included - and the condition `not detect.calls and <condition>`) rejects whatever is computed
-after an entry was found, because finding one is recorded in `detect.calls`.  None of these options changes which key and
+after an entry was found while the call is still in progress, because finding one is recorded in `detect.calls` (a re-write
+done in a background task runs after the call has returned and its record is cleared: accepted).  None of these options changes which key and
 tags a stored result gets. -/
 structure Run where
   dur : Nat
